@@ -15,6 +15,11 @@ func init() {
 
 func runC02(r *Report, tier string) {
 	P := r.P
+	// round 6
+	r.rule("R18.2", "(shared with C18) Sign leaves the retained raw header bytes it signed in place: the Sig_structure rebuilt by Verify reads the same body_protected / sign_protected.")
+	checkSignWrites(r, "R18.2")
+	r.rule("R19.2", "(shared with C19) decode destinations are fresh: no pooled or shared wire struct whose buffers a later decode overwrites under a message decoded earlier.")
+	checkDecodeDestinations(r, "R19.2")
 	r.rule("R02.1", "structure conformance: at the Sign1 key sites the content term equals Enc(['Signature1', DetBstr(ProtBytes(recv.Headers)), NilToEmpty(external), recv.Payload]); at the Signature key sites Enc(['Signature', DetBstr(body), DetBstr(ProtBytes(recv.Headers)), NilToEmpty(external), payload]) with body/payload/external the method's parameters; Enc is the package's deterministic encoder mode; ProtBytes(H) is {H.RawProtected, Enc(H.Protected)}; COSE_Sign hands ProtBytes(m.Headers), m.Payload and its own external parameter to every signer; the untagged forms delegate to the tagged methods.")
 	r.rule("R02.2", "footprint: the content term reads only Headers.RawProtected, Headers.Protected, Payload and the parameters; no leaf under Unprotected, RawUnprotected, Signature(s), and no tag constant.")
 	r.rule("R02.4", "the retained raw header bytes (Headers.RawProtected / RawUnprotected) of a value reached through a pointer are written only in the decoder family; elsewhere only a function's own by-value copy is touched, so a verification that follows a decode sees the protected bytes as received.")
